@@ -101,6 +101,10 @@ func c09Applicable(p *gen.Program) ([]c09Transform, []gen.Boundary) {
 	gen.Render(p.Stream, col)
 	var ts []c09Transform
 	for _, b := range col.bs {
+		if b.ContOnly {
+			ts = append(ts, c09Transform{"continuation", b.Seq})
+			continue
+		}
 		if b.Glue {
 			continue
 		}
